@@ -53,38 +53,67 @@ def block_cells(spec):
     return {int(k): v for k, v in spec['cells'].items()}
 
 
+def make_unit(lay, zero):
+    """one unit of a layout -> (ModbusSlaveContext, {table: block}, RegFile)"""
+    off = 0 if zero else 1
+    bl = {}
+    defaulted = lay.get('defaulted', [])
+    for t in TABLES:
+        if t not in lay['alias'] and t not in defaulted:
+            bl[t] = make_block(lay[t])
+    for t, src in lay['alias'].items():
+        bl[t] = bl[src]
+    kw = {k: bl[t] for k, t in (('di', 'd'), ('co', 'c'), ('ir', 'i'), ('hr', 'h')) if t in bl}
+    slave = ModbusSlaveContext(zero_mode=zero, **kw)       # tables not given get pymodbus' default block
+    for t in defaulted:
+        bl[t] = slave.store[t]
+    tabs = {}
+    for t in TABLES:
+        if t in lay['alias']:
+            continue
+        tabs[t] = {a - off: v for a, v in block_cells(lay[t]).items() if 0 <= a - off <= 0xFFFF}
+    return slave, bl, RegFile(tabs, aliases=lay['alias'])
+
+
 def build(layout):
     """layout = {'single': bool, 'zero_mode': bool, 'units': {uid: unit_layout}}
     -> (ModbusServerContext, Model, blocks {uid: {table: block}})"""
     zero = layout['zero_mode']
-    off = 0 if zero else 1
     slaves, models, blocks = {}, {}, {}
     for uid, lay in layout['units'].items():
         uid = int(uid)
-        bl = {}
-        defaulted = lay.get('defaulted', [])
-        for t in TABLES:
-            if t not in lay['alias'] and t not in defaulted:
-                bl[t] = make_block(lay[t])
-        for t, src in lay['alias'].items():
-            bl[t] = bl[src]
-        kw = {k: bl[t] for k, t in (('di', 'd'), ('co', 'c'), ('ir', 'i'), ('hr', 'h')) if t in bl}
-        slaves[uid] = ModbusSlaveContext(zero_mode=zero, **kw)       # tables not given get pymodbus' default block
-        for t in defaulted:
-            bl[t] = slaves[uid].store[t]
-        blocks[uid] = bl
-        tabs = {}
-        for t in TABLES:
-            if t in lay['alias']:
-                continue
-            tabs[t] = {a - off: v for a, v in block_cells(lay[t]).items() if 0 <= a - off <= 0xFFFF}
-        models[uid] = RegFile(tabs, aliases=lay['alias'])
+        slaves[uid], blocks[uid], models[uid] = make_unit(lay, zero)
     if layout['single']:
         uid = next(iter(slaves))
         ctx = ModbusServerContext(slaves=slaves[uid], single=True)
     else:
         ctx = ModbusServerContext(slaves=dict(slaves), single=False)
     return ctx, Model(layout, models), blocks
+
+
+RETIRED = 1000          # a unit replaced or removed at run time keeps being dumped under key RETIRED * k + uid
+
+
+def reconfigure(op, uid, lay, layout, ctx, blocks):
+    """run-time reconfiguration through the context's public mapping interface (real side);
+    returns the RegFile of the new unit (or None) for Model.reconfigure"""
+    def retire(u):
+        k = 1
+        while RETIRED * k + u in blocks:
+            k += 1
+        blocks[RETIRED * k + u] = blocks.pop(u)
+    if op == 'del':
+        del ctx[uid]
+        retire(uid)
+        return None
+    slave, bl, rf = make_unit(lay, layout['zero_mode'])
+    if layout['single']:
+        uid = next(iter(u for u in blocks if u < RETIRED))
+    ctx[uid] = slave
+    if uid in blocks:
+        retire(uid)
+    blocks[uid] = bl
+    return rf
 
 
 def build_model(layout):
@@ -126,7 +155,30 @@ class Model(object):
         return sorted(self.units)
 
     def dump(self):
-        return norm_dump({u: m.dump() for u, m in self.units.items()})
+        d = {u: m.dump() for u, m in self.units.items()}
+        d.update({u: m.dump() for u, m in getattr(self, 'retired', {}).items()})
+        return norm_dump(d)
+
+    def reconfigure(self, op, uid, regfile):
+        """mirror of servermodel.reconfigure on the model side"""
+        if not hasattr(self, 'retired'):
+            self.retired = {}
+
+        def retire(u):
+            k = 1
+            while RETIRED * k + u in self.retired:
+                k += 1
+            self.retired[RETIRED * k + u] = self.units.pop(u)
+        if op == 'del':
+            retire(uid)
+            return
+        if self.single:
+            uid = next(iter(self.units))
+        if uid in self.units:
+            retire(uid)
+        self.units[uid] = regfile
+        if self.single:
+            self.only = regfile
 
     def target(self, unit):
         if self.single:
